@@ -48,6 +48,15 @@ def summary (s : St) (rets : List (Tid × Ret)) : String :=
   let cnt (f : Call → Bool) := (s.log.filter fun p => f p.2).length
   s!"rets={",".intercalate rs} blocked={",".intercalate bl} created={s.created} attempts={",".intercalate att} sends={",".intercalate sends} recv={cnt (· == .recv)} header={cnt (· == .header)} closesend={cnt (· == .closeSend)}"
 
+/-- `summary` with the sends sorted (two senders: their order on the underlying stream is not determined) -/
+def summarySorted (s : St) (rets : List (Tid × Ret)) : String :=
+  let rs := (rets.map fun (t, r) => s!"{t}:{retName r}").mergeSort (· ≤ ·)
+  let bl := (tids.filter fun t => match s.pcs t with | .waiting _ => true | _ => false).map toString
+  let att := s.attempts.map fun | some m => toString m | none => "-"
+  let sends := ((s.log.filterMap fun | (_, .send m) => some m | _ => none).mergeSort (· ≤ ·)).map toString
+  let cnt (f : Call → Bool) := (s.log.filter fun p => f p.2).length
+  s!"rets={",".intercalate rs} blocked={",".intercalate bl} created={s.created} attempts={",".intercalate att} sends={",".intercalate sends} recv={cnt (· == .recv)} header={cnt (· == .header)} closesend={cnt (· == .closeSend)}"
+
 def fail (rep : Report) (ln : Nat) (c : String) : Report :=
   { rep.msg s!"MONITOR property=C12 clause={c} line={ln}" with monitorFails := rep.monitorFails + 1 }
 
@@ -123,6 +132,26 @@ def handle (sess0 : Sess) (rep : Report) (ln : Nat) (toks : List String) (obs : 
     let hist : Hist := { histPre with canceled := histPre.canceled || op == "cancel", nAttempts := atts,
                                       created := histPre.created || arg oa "created" == "1",
                                       raceArmed := histPre.raceArmed && !raceNow }
+    if op == "call2" then
+      -- two callers arrive while the stream is being created: the model (creation is one atomic step
+      -- under the stream's mutex) runs them one after the other
+      lift (match sess with
+      | none => (none, rep.bump "st.skipped_after_divergence")
+      | some s =>
+        match parseCall (arg a "a"), parseCall (arg a "b") with
+        | some ca, some cb =>
+          let rep := rep.bump "st.second_caller_during_creation"
+          let runCall (s : St) (t : Tid) (c : Call) (rets : List (Tid × Ret)) : St × List (Tid × Ret) :=
+            let (s1, r) := step s (.call t c true)
+            let rets := match r with | some .blocked => rets | some x => rets ++ [(t, x)] | none => rets
+            settle s1 rets 64
+          let (s1, rets1) := runCall s 0 ca []
+          let (s2, rets2) := runCall s1 3 cb rets1
+          let mine := summarySorted s2 rets2
+          if mine == obs then (some s2, rep)
+          else (none, { rep.msg s!"DIVERGE line={ln} model={mine} impl={obs}" with diverged := rep.diverged + 1 })
+        | _, _ => (sess, rep.msg s!"BAD line={ln}")) hist
+    else
     lift (match sess with
     | none => (none, rep.bump "st.skipped_after_divergence")
     | some s =>
